@@ -46,6 +46,27 @@ class TheCheck(SeqCheck):
     exhaustive_note = True
 
     # ------------------------------------------------------------------ generators
+    def gen_access_triples(self, sizes):
+        """indexed access / insertion / removal at every index, then an operation on the whole list (reverse,
+        walks, toarray, setsize, a second indexed access), then an indexed access at every index: state a
+        call leaves behind for the next one (a cached position, a cursor, a remembered end) must survive
+        or be invalidated by whatever comes in between (seed C09-m10)"""
+        hs = []
+        for n in sizes:
+            b = ["obsoff", "new list"] + build(n, "last")
+            firsts = [t % i for i in range(n) for t in ("getat %d 1", "popat %d", "addat %d 4e4557")] + ["getat -2 0"]
+            mids = ["reverse", "walk 0", "toarray", "setsize %d" % (n + 3), "reset", "getat %d 1" % (n // 2), "popfirst", "addlast 5a",
+                    "reverse;reverse", "next 0;reverse"]
+            for a in firsts:
+                for m in mids:
+                    # ONE access per history: an earlier correct access would repair what the middle operation broke
+                    for j in list(range(n - 1)) + [-1, -2]:
+                        hs.append(b + [a] + m.split(";") + ["getat %d 1" % j, "toarray"])
+                    hs.append(b + [a] + m.split(";") + ["popat 1", "addat 2 51", "removeat -2", "toarray"])
+        if hs:
+            hs[-1] = hs[-1] + ["obson"]
+        return hs
+
     def gen_index_exhaustive(self, nmax):
         hs = []
         for n in range(nmax + 1):
@@ -329,6 +350,8 @@ class TheCheck(SeqCheck):
         sts.append(Stream("big-limits", pack(self.gen_big_limits()), history=True,
                           note="setsize 2^31-1, 2^31, 2^32-1, 2^32, 2^32+2, 2^40, SIZE_MAX-1, SIZE_MAX on list/queue/stack: value read back, adds accepted/refused"))
         # the errno-reporting streams once more on THREADSAFE containers (same ops, same expected lines)
+        sts.append(Stream("access-triples", pack(self.gen_access_triples((4, 5, 6) if quick else (4, 5, 6, 7, 9))), history=True,
+                          note="(indexed op at every index) x (whole-list op) x (indexed access at every index)"))
         sts.append(Stream("exhaustive-index-ts", pack(ts_variant(self.gen_index_exhaustive(5 if quick else 8))), history=True,
                           note="exhaustive-index on containers created with QLIST_THREADSAFE"))
         sts.append(Stream("limits-ts", pack(ts_variant(self.gen_limits(3 if quick else 4))), history=True))
